@@ -106,6 +106,7 @@ SpreadAny(i, j) == TRUE
 FragsW == << [name |-> "F", on |-> "Q"], [name |-> "G", on |-> "O"] >>
 \* cycles: fragments that spread themselves or each other directly and through fields
 FragsCyc == << [name |-> "G", on |-> "O"], [name |-> "H", on |-> "O"] >>
+FragsCyc1 == << [name |-> "G", on |-> "O"] >>
 Cyc_Leafs(t) == IF t = "O" THEN { Sel("", "x") } ELSE {}
 \* `z: z` has the response key of `z`: a key selected twice, the cycle below either occurrence
 Cyc_Comps(t) == CASE t = "Q" -> { Sel("", "o") } [] t = "O" -> { Sel("", "z"), Sel("z", "z") } [] OTHER -> {}
